@@ -113,8 +113,9 @@ Proof.
     apply andb_true_iff in E. destruct E as [E E3]. apply andb_true_iff in E. destruct E as [_ E2].
     apply I; auto. }
   split; [|split; [reflexivity|]].
-  - unfold Inv, refreshed, cur_desc, cur_pos. simpl. repeat split; auto; intros Hr _ _; apply (R Hr).
-  - eexists. split; [reflexivity|]. simpl. repeat split; auto; intros Hr; apply (R Hr).
+  - unfold Inv. simpl. split; [exact B1|split; [exact B2|]]. intros Hr _ _. apply (R Hr).
+  - eexists. split; [reflexivity|]. simpl. split; [reflexivity|split; [reflexivity|split; [reflexivity|]]].
+    intros Hr. apply (R Hr).
 Qed.
 
 Definition call_post (s' : St) (r : Res) : Prop :=
@@ -138,11 +139,11 @@ Proof.
     destruct (do_set_pos s1 q m) as [s2 del]. simpl in I2, F. destruct F as (F1 & _).
     pose proof (finish_ok s2 del I2) as FS.
     destruct (finish_call s2 del) as [s' r]. destruct FS as (IS & PS & o & -> & G & SE & PO & KV).
-    simpl. split; [exact IS|]. repeat split; auto. rewrite PS, F1. discriminate.
+    simpl. split; [exact IS|]. split; [exact G|split; [exact SE|split; [exact PO|split; [rewrite PS, F1; discriminate|exact KV]]]].
   - destruct (st_pos s1) as [c|] eqn:P.
     + pose proof (finish_ok s1 false I1) as FS.
       destruct (finish_call s1 false) as [s' r]. destruct FS as (IS & PS & o & -> & G & SE & PO & KV).
-      simpl. split; [exact IS|]. repeat split; auto. rewrite PS, P. discriminate.
+      simpl. split; [exact IS|]. split; [exact G|split; [exact SE|split; [exact PO|split; [rewrite PS, P; discriminate|exact KV]]]].
     + simpl. split; [exact I1|exact I].
 Qed.
 
@@ -211,12 +212,12 @@ Qed.
 Lemma finish_names s2 del :
   let s' := fst (finish_call s2 del) in has 2 (st_cnames s') = true /\ has 1 (st_knames s') = true.
 Proof.
-  unfold finish_call. simpl.
+  unfold finish_call. cbn [fst st_cnames st_knames].
   set (reuse := negb del && has 2 (st_cnames s2) && has 1 (st_knames s2)).
   destruct reuse eqn:E.
   - unfold reuse in E. apply andb_true_iff in E. destruct E as [E E3]. apply andb_true_iff in E. destruct E as [_ E2].
     split; repeat apply has_add_mono; auto.
-  - split; repeat apply has_add_mono; apply has_add_same.
+  - split; [do 2 apply has_add_mono|apply has_add_mono]; apply has_add_same.
 Qed.
 
 Theorem reuse_when_unchanged fx s p sd s1 o1 :
@@ -241,7 +242,7 @@ Proof.
   set (sc := match sd2 with Some x => with_seed s1 x | None => s1 end).
   assert (C : st_pos sc = st_pos s1 /\ st_mesh sc = st_mesh s1 /\ st_cnames sc = st_cnames s1 /\
               st_knames sc = st_knames s1 /\ st_rk sc = st_rk s1 /\ st_kv sc = st_kv s1)
-    by (unfold sc; destruct sd2; simpl; auto).
+    by (unfold sc; destruct sd2; simpl; repeat split).
   destruct C as (C1 & C2 & C3 & C4 & C5 & C6).
   destruct Hq as [->|(c & -> & Hcl)].
   - rewrite C1, P1. destruct (st_pos sb) eqn:Pb'; [|contradiction].
@@ -304,4 +305,26 @@ Example clean_example :
   clean true (init 1) [Call (Some (P0, false)) None; Call None (Some 5); SetCond NewVals; Call (Some (P0, false)) None;
                        SetPos P1 true; ModelInplace; SetCond Refresh; SetModel; SetMean; SetTrend; SetNorm; SetGen 4;
                        Call (Some (P1, true)) (Some 9)].
-Proof. vm_compute. repeat split; intros; congruence. Qed.
+Proof.
+  vm_compute. repeat split; intros c E H;
+    first [discriminate E | injection E as <-; first [reflexivity | vm_compute in H; discriminate H]].
+Qed.
+
+(* ---------- the hypothesis [refreshed] of cache_coherent: the documented refresh (set_condition, with or without
+   arguments) and a model re-assignment always establish it; only an in-place model change can destroy it *)
+Theorem refreshed_characterised (s : St) :
+  (forall k, refreshed (fst (step true s (SetCond k)))) /\
+  refreshed (fst (step true s SetModel)) /\
+  (forall op, refreshed s -> op <> ModelInplace -> refreshed (fst (step true s op))).
+Proof.
+  split; [intros k; reflexivity|]. split; [reflexivity|].
+  intros op Hr Hop. destruct op as [p sd|q m|k| | | | | |sd]; try reflexivity; try exact Hr; try contradiction.
+  simpl. rewrite do_call_unfold. cbv zeta.
+    set (s1 := match sd with Some x => with_seed s x | None => s end).
+    assert (R1 : refreshed s1) by (unfold s1; destruct sd; exact Hr).
+  destruct p as [[q m]|].
+  - pose proof (set_pos_fields s1 q m) as F. destruct (do_set_pos s1 q m) as [s2 del]. simpl in F.
+    destruct F as (_ & _ & _ & _ & _ & F6 & F7 & _). unfold finish_call, refreshed. simpl.
+    rewrite F6, F7. exact R1.
+  - destruct (st_pos s1); [unfold finish_call, refreshed; simpl|]; exact R1.
+Qed.
